@@ -262,6 +262,14 @@ func init() {
 				}
 			}
 		}
+		// joins as tree members: closing a join closes what the join created and
+		// nothing else (E10's create/close cycles, close-related classes)
+		closeClasses := map[string]bool{"join-leaks-goroutines": true, "join-close-hang": true, "join-close-stops-base": true}
+		for _, k := range []string{"ingress-pods", "service-pod", "deployment-pod", "ingress-service"} {
+			for i := 0; i < tierPick(tier, 4, 40); i++ {
+				cases = append(cases, e10As(e10Case(k, seed, i), "C11", closeClasses))
+			}
+		}
 		return cases
 	})
 }
